@@ -198,8 +198,8 @@ theorem prefixMatches_spec {tbl : List Id} (hs : Sorted tbl) (p : Id)
     prefixMatches tbl p = classify (tbl.filter (matchesPrefix p)) := by
   obtain ⟨lo, hi, he, hl, h1, h2⟩ := lowerBound_split hs (padEven p)
   obtain ⟨_, hshi, _⟩ := sorted_append (he ▸ hs)
-  have hdrop : tbl.drop (lowerBound tbl (padEven p)) = hi := by
-    rw [← hl, he]; simp
+  have hdrop : tbl.drop (lookupPos tbl (padEven p)).2 = hi := by
+    rw [(lookupPos_spec hs (padEven p)).1, ← hl, he]; simp
   have hlo : lo.filter (matchesPrefix p) = [] := by
     apply List.filter_eq_nil_iff.mpr
     intro x hx hm
